@@ -970,13 +970,11 @@ pub(super) fn check_synced(w: &World, s: &Session<'_>, ok: bool) {
     let cur = slot_n(w.sh.cur);
     let never_skip = w.cfg.state.server_state_creation == ServerStateCreation::NeverSkip;
     // records filed under ids that are neither the session's old nor its new id are never touched
-    let mut k = 0;
-    while k < 4 {
-        if k != o && k != cur {
-            assert!(db.recs[k] == db0[k], "sync touched the record of an unrelated session");
-        }
-        k += 1;
-    }
+    // (unrolled: a 4-iteration loop would dictate the unwind bound of every harness)
+    assert!(0 == o || 0 == cur || db.recs[0] == db0[0], "sync touched the record of an unrelated session");
+    assert!(1 == o || 1 == cur || db.recs[1] == db0[1], "sync touched the record of an unrelated session");
+    assert!(2 == o || 2 == cur || db.recs[2] == db0[2], "sync touched the record of an unrelated session");
+    assert!(3 == o || 3 == cur || db.recs[3] == db0[3], "sync touched the record of an unrelated session");
     if !ok {
         // The one documented failure: the id was cycled without ever looking at the state and
         // the record to rename is not there (pinned by the crate's own test
@@ -1393,7 +1391,7 @@ fn c11_history_2() {
 // The next request (S3): cookie -> IncomingSession::extract -> Session::new
 // =============================================================================================
 
-// @tier quick
+// @tier thorough
 // @obligation the next request: the cookie value written by the real Serialize derive for an arbitrary (id, client map) is read back by the real IncomingSession::extract (real Deserialize derive) as exactly that id and map, and Session::new on it (or on no cookie) yields a state that satisfies INV and abstracts to "known, not looked at, these client values" (resp. "new, absent, empty") - the base case and the request-to-request link of the induction
 // @bounds id in {O, X}; client map over keys {a,b} x {null,false,true}; store arbitrary; with and without cookie
 // @functions WireClientState (derived Serialize + Deserialize), IncomingSession::extract, IncomingSession::from_parts, Session::new
